@@ -176,3 +176,18 @@ package crdt
 //@   requires cfg != nil
 //@   at_call Config.applyJSONConfig assert [defaults-first] defaultsN == old(defaultsN) + 1
 //@   modifies *
+
+// ---- C07 "trust follows the configuration - the listed peers": at start-up EVERY listed peer is handed to Trust (the
+// trust cache is what the RPC authorization and the pubsub validator read), whatever came before it in the list ----
+//@ ghost var trustOfferedN int
+//@ func (css *Consensus) Trust
+//@   opts trusted
+//@   counts trustOfferedN when true
+//@   modifies *css
+//@ func (css *Consensus) setup
+//@   property C07
+//@   at_call Consensus.Trust assert [the-listed-peer-of-this-iteration] pid == rng1[idx1]
+//@   loop 1 (range css.config.TrustedPeers)
+//@     on_break [no-listed-peer-ends-the-loop] false
+//@     step [every-listed-peer-is-offered] trustOfferedN == prev(trustOfferedN) + 1
+//@   modifies *
